@@ -25,7 +25,7 @@ def make_manager(asyncio_):
     if asyncio_:
         class M(base):
             def __init__(self):
-                super().__init__(logger=stubs.NULL_LOGGER)
+                super().__init__()       # default: no logger of its own (falls back to the server's)
                 self.chan, self.cursor, self.published, self.listens = [], 0, [], 0
 
             async def _publish(self, data):
@@ -42,7 +42,7 @@ def make_manager(asyncio_):
     else:
         class M(base):
             def __init__(self):
-                super().__init__(logger=stubs.NULL_LOGGER)
+                super().__init__()       # default: no logger of its own (falls back to the server's)
                 self.chan, self.cursor, self.published, self.listens = [], 0, [], 0
 
             def _publish(self, data):
